@@ -55,6 +55,55 @@ def _const(pattern, text, name, default):
     return prev_value("Tmo.lean", name, default)
 
 
+SEND_STATES = ("MHD_CONNECTION_CONTINUE_SENDING", "MHD_CONNECTION_HEADERS_SENDING", "MHD_CONNECTION_NORMAL_BODY_READY",
+               "MHD_CONNECTION_CHUNKED_BODY_READY", "MHD_CONNECTION_FOOTERS_SENDING")
+
+
+def activity_sites():
+    """every call of MHD_update_last_activity_ in the library: enclosing function, the `case MHD_CONNECTION_…:` labels
+    it sits under (for switch-on-state functions), and its position: afterSend = a send call precedes it in the same
+    case block / function, unconditional = no completion test (check_write_done call, comparison of the send offset
+    with the amount to send, `return` that depends on them) lies between that send and the call -- i.e. the timer is
+    restarted by EVERY send that made progress, not only by the one that empties the buffer."""
+    from extract import src
+    sites = []
+    for fn in ("connection.c", "daemon.c", "connection_https.c", "mhd_send.c", "response.c"):
+        try:
+            text = src("src/microhttpd/" + fn)
+        except Exception:
+            continue
+        lines = text.split("\n")
+        func, fstart = None, 0
+        for n, ln in enumerate(lines):
+            m = re.match(r"^([A-Za-z_][A-Za-z0-9_]*) \(", ln)
+            if m and n + 1 < len(lines) and not ln.rstrip().endswith(";"):
+                func, fstart = m.group(1), n
+            if "MHD_update_last_activity_ (" in ln and func != "MHD_update_last_activity_" and func:
+                body = lines[fstart:n]
+                # the case labels directly above (a run of labels counts as one block)
+                k = len(body) - 1
+                while k >= 0 and not re.match(r"\s*case MHD_CONNECTION_", body[k]):
+                    k -= 1
+                states, blockstart = [], 0
+                if k >= 0:
+                    blockstart = k
+                    while k >= 0 and re.match(r"\s*case MHD_CONNECTION_", body[k]):
+                        states.append(re.match(r"\s*case (MHD_CONNECTION_[A-Z_0-9]+)", body[k]).group(1)); k -= 1
+                block = "\n".join(body[blockstart:])
+                ms = list(re.finditer(r"MHD_send_[a-z_]+ \(|gnutls_record_send \(|\brecv_cls \(|MHD_recv_|->recv_cls", block))
+                after = bool(ms)
+                tail = block[ms[-1].end():] if ms else block
+                # what may stand between the send and the call without making it conditional on completion:
+                # the error branch `if (ret < 0) { ... return; }`, logging, the offset bookkeeping
+                cond = bool(re.search(r"check_write_done \(|write_buffer_append_offset\s*(==|!=|<=|>=)|"
+                                      r"(==|!=)\s*connection->write_buffer_append_offset|total_size\s*==|"
+                                      r"!= connection->state\)\s*\n\s*return", tail))
+                early = bool(re.search(r"\breturn\b", "\n".join(body))) and not states and func == "check_write_done"
+                for st in (states or ["-"]):
+                    sites.append((func, st, after, after and not cond and not early))
+    return sites
+
+
 def gen_tmo(harness=None):
     """constants by source pattern (fallback: last committed value, the correspondence decides);
     the behaviour flags by running six probe scripts on the real code; the type sizes the conversion
@@ -108,6 +157,15 @@ def gen_tmo(harness=None):
         "/-- behaviour of this tree, probed on the real code by six tiny scripts (see gen_tmo) -/\n" % (jb, half, gran, mps)
     for name in FLAGS:
         out += "def %s : Bool := %s\n" % (name, "true" if flags[name] else "false")
+    sites = activity_sites()
+    out += "/-- every call site of `MHD_update_last_activity_` (source scan, see activity_sites in tools/props/C10.py):\n" \
+           "    enclosing function, state (`case` label it sits under, \"-\" if none), a send/recv call precedes it in that\n" \
+           "    block, and no completion test lies between that call and the site (the timer is restarted by every\n" \
+           "    transfer that made progress, not only by the one that empties the buffer) -/\n" \
+           "def activitySites : List (String × String × Bool × Bool) := [\n"
+    out += ",\n".join('  ("%s", "%s", %s, %s)' % (f, st, "true" if a else "false", "true" if u else "false") for f, st, a, u in sites)
+    out += "]\n/-- the states in which `MHD_connection_handle_write` sends -/\n"
+    out += "def sendStates : List String := [%s]\n" % ", ".join('"%s"' % x for x in SEND_STATES)
     out += "end Mhd.Gen.Tmo\n"
     vlib.write_if_changed(GENFILE, out)
     return flags
@@ -157,6 +215,7 @@ class Oracle:
         self.hw = CLOCK0        # high-water mark of the virtual clock
         self.sent_at = {}       # c -> virtual time of the oldest client byte not yet certainly read
         self.sent_rounds = {}   # c -> clock values of the rounds since then (a read stamps one of them)
+        self.lastio = {}        # c -> virtual time of the last send that made progress (partial or complete)
         self.elig = {}          # c -> number of complete rounds since then in which c could read
         self.client_closed = set()
 
@@ -197,7 +256,25 @@ class Oracle:
         for c in cs:
             if c in self.texp and cs[c]["tmo"] != self.texp[c] and not err:
                 err = "override: connection has timeout %d ms, the application set %d ms" % (cs[c]["tmo"], self.texp[c])
+        # ---- I/O progress is activity: a send that moved bytes (event w<c>) restarts the timer
+        for e in p["ev"]:
+            mw = re.fullmatch(r"w(\d+)", e)
+            if mw:
+                c = int(mw.group(1))
+                self.lastio[c] = now
+                if c in cs and cs[c]["tmo"] != 0 and not cs[c]["x"] and not cs[c]["s"] and cs[c]["la"] != now and not err:
+                    err = "send progress at %d not registered as activity (last_activity %d)" % (now, cs[c]["la"])
+        for c in cs:       # a later recv is I/O progress too (it may carry a LOWER clock value after a backward jump)
+            if c in self.lastio and c in pcs and cs[c]["la"] != pcs[c]["la"]:
+                self.lastio[c] = now
         if k == "round":
+            # ---- never closed for inactivity while the gap since the last I/O progress is <= T
+            for c in newly_x:
+                if c in closed_to and c in self.lastio and c in pcs and small:
+                    t = self.texp.get(c, pcs[c]["tmo"])
+                    gap = now - self.lastio[c]
+                    if t != 0 and 0 <= gap <= t and not err:
+                        err = "closed for timeout although bytes were sent %d ms ago <= %d ms" % (gap, t)
             # ---- closes for timeout: only when idle > T, never while suspended
             for c in newly_x:
                 if c in closed_other or (c in self.client_closed and c not in closed_to):
@@ -297,6 +374,7 @@ def gen_history(rng, name):
     nops = rng.randint(6, 22)
     jump = rng.random() < 0.35
     slowh = rng.random() < 0.35
+    replies = mode == "select" and rng.random() < 0.3
     for c in range(rng.randint(1, n)):
         lines.append("arrive %d" % c); arrived.add(c)
     lines.append("round")
@@ -318,6 +396,12 @@ def gen_history(rng, name):
             continue
         if c not in arrived and r > 0.1:
             lines.append("arrive %d" % c); arrived.add(c)
+            if rng.random() < 0.7:
+                lines.append("round")
+            continue
+        if replies and rng.random() < 0.2:
+            lines.append(rng.choice(["get %d %s" % (c, rng.choice("nhcfe")), "allow %d %d" % (c, rng.choice([30, 200, 900, 4000])),
+                                     "allow %d %d" % (c, rng.choice([30, 200, 900, 4000]))]))
             if rng.random() < 0.7:
                 lines.append("round")
             continue
@@ -449,6 +533,26 @@ def gen_pending():
                             yield lines
 
 
+# replies drained by a slow reader: every sending state (n: header block + normal body, h: long header block only,
+# c: chunked body, f: chunked body + footers, e: 100 Continue), pieces of 40 / 700 / 4000 bytes, gaps between
+# the pieces below / at / above the timeout, another connection idle or active (list order), override, clock jump
+def gen_replies():
+    k = 0
+    for kind in "nhcfe":
+        for T in (10, 3):
+            Tm = T * 1000
+            for gaps in ([Tm // 2] * 6, [Tm - 1] * 5, [Tm] * 5, [Tm // 3, Tm + 1, 100], [Tm // 2, Tm // 2, Tm + 1], [Tm + 1]):
+                for piece in (40, 700, 4000):
+                    for other in ([], ["send 1", "round"], ["set-timeout 0 7"], ["tickback 300"]):
+                        lines = ["case s%d" % k, "cfg mode=select timeout=%d" % T, "start", "arrive 0", "arrive 1", "round",
+                                 "get 0 %s" % kind, "round"] + other
+                        for g in gaps:
+                            lines += ["tick %d" % g, "allow 0 %d" % piece, "round"]
+                        lines += ["allow 0 4000", "round", "allow 0 4000", "round", "round", "tick %d" % (Tm + 1), "round", "round"]
+                        k += 1
+                        yield lines
+
+
 # white-box conversion cases: the hint poked to boundary / random uint64 values in several daemon states
 CONV_VALUES = [0, 1, 99, 100, 101, 999, 1000, 1001, 2 ** 31 - 2, 2 ** 31 - 1, 2 ** 31, 2 ** 32 - 1, 2 ** 32,
                2 ** 63 - 2, 2 ** 63 - 1, 2 ** 63, 2 ** 63 + 1, 2 ** 64 - 2, 2 ** 64 - 1]
@@ -521,7 +625,26 @@ def new_stats():
     return {k: 0 for k in ("ops", "to", "su", "cc", "co", "hint0", "hintnone", "hintpos", "badop", "tickback",
                            "rounds_back_1_5000", "rounds_back_gt5000", "tmo_close_while_back",
                            "slow", "states_with_work_pending", "work_pending_and_others",
+                           "rounds_with_send_progress", "partial_sends", "replies_completed",
+                           "get_n", "get_h", "get_c", "get_f", "get_e",
                            "conv", "conv_plain", "conv_clamped", "conv_none")}
+
+
+def annotate(lines, hout):
+    """The model does not follow reply bytes: every `round` of the script gets, as parameters, the send progress
+    the real code showed in that round (w = connections whose socket took more bytes, f = replies completed).
+    Returns the script for the model and the harness lines with the same echo."""
+    ml, hl = [], []
+    for op, h in zip(lines, hout):
+        if op == "round" and h.startswith("round ev=["):
+            evs = h[len("round ev=["):].split("]", 1)[0].split(",")
+            w = [e[1:] for e in evs if re.fullmatch(r"w\d+", e)]
+            f = [e[3:] for e in evs if re.fullmatch(r"fin\d+", e)]
+            if w or f:
+                op = "round w=%s f=%s" % (",".join(w), ",".join(f))
+                h = op + h[len("round"):]
+        ml.append(op); hl.append(h)
+    return ml, hl
 
 
 class Spec:
@@ -550,7 +673,9 @@ class Spec:
                          "Mhd.C10.thread_timeval_huge_negative", "Mhd.C10.loop_wait_le_earliest_deadline",
                          "Mhd.C10.current_accumulates_pending", "Mhd.C10.pending_flag_only_raised",
                          "Mhd.C10.select_traversal_pending_hint_zero", "Mhd.C10.select_traversal_keeps_pending",
-                         "Mhd.C10.assigned_flag_is_cleared_by_idle_connection", "Mhd.C10.accumulated_flag_gives_zero"]
+                         "Mhd.C10.assigned_flag_is_cleared_by_idle_connection", "Mhd.C10.accumulated_flag_gives_zero",
+                         "Mhd.C10.partial_send_is_activity", "Mhd.C10.recv_is_activity", "Mhd.C10.send_progress_restarts_timer",
+                         "Mhd.C10.replying_without_progress_times_out", "Mhd.C10.slow_reader_is_not_idle"]
     trusted_base = ["Lean 4 kernel", "axioms: propext, Classical.choice, Quot.sound at most (audited per theorem)",
                     "hand-written model lean/Mhd/Model/Tmo.lean + TmoLoop.lean + TmoConv.lean tied to connection.c/daemon.c by this "
                     "run's correspondence (every output line incl. white-box dump of the timeout lists; `conv`: the four "
@@ -573,7 +698,11 @@ class Spec:
                    "loop hint 0 with work pending (eready list) is carried by the correspondence and the oracle only",
                    "LP64 type sizes for the conversions (checked against MHD_config.h on every run)",
                    "virtual times < 2^62 ms, timeouts as settable through the API (< 2^32 s)",
-                   "the scripted clients never complete a request: activity = received bytes only (no reply traffic)"]
+                   "replies (select loop only): the model does not follow reply bytes; which replying connections make send "
+                   "progress in a round and which replies complete are PARAMETERS of the round (theorems quantify over all of "
+                   "them), taken from what the real code did under the slow-reader shim; that every send with progress calls "
+                   "MHD_update_last_activity_ is the regenerated table activitySites (source scan) + the oracle clause; "
+                   "replies in the epoll loop, write errors and client closes during a reply are not scripted"]
 
     def gen(self, ctx):
         self.flags = gen_tmo()
@@ -586,7 +715,11 @@ class Spec:
     def run_batch(self, cases, failures, stats):
         lines = [l for c in cases for l in c]
         hout, hrc, herr = vlib.run_lines(self.harness, lines)
-        mout, mrc, merr = vlib.run_lines(self.driver, lines)
+        if hrc == 0 and len(hout) == len(lines):
+            mlines, hout = annotate(lines, hout)
+        else:
+            mlines = lines
+        mout, mrc, merr = vlib.run_lines(self.driver, mlines)
         if hrc != 0 or len(hout) != len(lines):
             if len(cases) == 1:
                 failures.append(vlib.Failure("sanitizer", "tmo: harness aborted (rc=%d)" % hrc, herr[-1500:], cases[0], ENGINE))
@@ -603,6 +736,7 @@ class Spec:
             orc = Oracle(mode, dflt)
             bad = None
             for j, op in enumerate(cs):
+                op = mlines[k + j]
                 h = hout[k + j]
                 m = mout[k + j] if k + j < len(mout) else "<no output>"
                 if j >= 3:
@@ -619,7 +753,7 @@ class Spec:
                     stats["ops"] += 1
                     if op.startswith("tickback"):
                         stats["tickback"] += 1
-                    if op == "round" and orc.prev is not None:
+                    if op.startswith("round") and orc.prev is not None:
                         bk = orc.hw - orc.prev["now"]
                         if bk > 5000: stats["rounds_back_gt5000"] += 1
                         elif bk > 0: stats["rounds_back_1_5000"] += 1
@@ -631,6 +765,11 @@ class Spec:
                         stats["states_with_work_pending"] += 1
                         if len(re.findall(r" \d+:\d+:\d+:", h)) >= 2: stats["work_pending_and_others"] += 1
                     if op.startswith("slow"): stats["slow"] += 1
+                    if op.startswith("round w="):
+                        stats["rounds_with_send_progress"] += 1
+                        if re.search(r"fin\d", h): stats["replies_completed"] += 1
+                        else: stats["partial_sends"] += 1
+                    if op.startswith("get "): stats["get_" + op.split()[2]] += 1
                     if " hint=0 " in h: stats["hint0"] += 1
                     elif " hint=none " in h: stats["hintnone"] += 1
                     else: stats["hintpos"] += 1
@@ -689,7 +828,8 @@ class Spec:
         jmp = list(gen_jumps(ctx.tier))
         cnv = list(gen_conv(ctx.rng, 400 if ctx.tier == "thorough" else 60))
         pnd = list(gen_pending())
-        allc = cases + pnd + jmp + cnv + exh + rnd
+        rpl = list(gen_replies())
+        allc = cases + rpl + pnd + jmp + cnv + exh + rnd
         B = 400
         for i in range(0, len(allc), B):
             self.run_batch(allc[i:i + B], failures, stats)
@@ -711,6 +851,7 @@ class Spec:
                        "the arithmetic oracle" % (depth, len(ALPHA)),
                "jump_sizes_ms": JUMPS_T if ctx.tier == "thorough" else JUMPS_Q, "jump_pairs_ms": JPAIRS,
                "jump_histories": len(jmp), "conv_scripts": len(cnv), "pending_work_histories": len(pnd),
+               "reply_histories": len(rpl),
                "conv_boundary_values": len(CONV_VALUES), "conv_caps": CONV_CAPS,
                "samples": [rnd[0], exh[len(exh) // 2]] if rnd else [],
                "exhaustive_histories": len(exh), "random_histories": len(rnd), "corpus": ncorp,
